@@ -1,22 +1,22 @@
 #!/bin/sh
 # usage: tools/seedcheck.sh C05 a [CHECKS]   -- confirm an independently written seeded change and run checks against it
-#   1. copies /tmp/seed/out/<ID>/<x>/{patch.diff,demo.py,meta.json} to seeded/<ID>-<x>/
+#   1. copies ${SEED_OUT:-/tmp/seed/out}/<ID>/<x>/{patch.diff,demo.py,meta.json} to seeded/<ID>-<x>/
 #   2. confirms it in a scratch worktree: suite passes on py and cy with the change, demo fails with it and passes without
 #   3. runs the given checks (default: the property's own) against a scratch copy of /repo with the patch applied
 ID=$1; X=$2; CHECKS=${3:-$ID}
 cd "$(dirname "$0")/.."
-SRC=/tmp/seed/out/$ID/$X
+SRC=${SEED_OUT:-/tmp/seed/out}/$ID/$X
 DST=seeded/$ID-$X
 mkdir -p $DST
 cp $SRC/patch.diff $SRC/demo.py $SRC/meta.json $DST/ || exit 2
-WT=/tmp/seed/confirm-$ID-$X
+WT=${TMPDIR:-/tmp}/seed-confirm-$ID-$X
 rm -rf $WT; git -C /repo worktree add -q --detach $WT HEAD || exit 2
 {
-echo "== demo WITHOUT the change (py):"; /tmp/seed/run_demo.sh $WT $DST/demo.py py >/dev/null 2>&1; echo "exit=$?"
+echo "== demo WITHOUT the change (py):"; tools/seed_run_demo.sh $WT $DST/demo.py py >/dev/null 2>&1; echo "exit=$?"
 git -C $WT apply $(pwd)/$DST/patch.diff 2>/dev/null || patch -s -p1 -d $WT -i $(pwd)/$DST/patch.diff || { echo "PATCH DOES NOT APPLY"; }
-echo "== suite WITH the change:"; /tmp/seed/run_suite.sh $WT
-echo "== demo WITH the change (py):"; /tmp/seed/run_demo.sh $WT $DST/demo.py py 2>&1 | tail -3; /tmp/seed/run_demo.sh $WT $DST/demo.py py >/dev/null 2>&1; echo "exit=$?"
-echo "== demo WITH the change (cy):"; /tmp/seed/run_demo.sh $WT $DST/demo.py cy >/dev/null 2>&1; echo "exit=$?"
+echo "== suite WITH the change:"; tools/seed_run_suite.sh $WT
+echo "== demo WITH the change (py):"; tools/seed_run_demo.sh $WT $DST/demo.py py 2>&1 | tail -3; tools/seed_run_demo.sh $WT $DST/demo.py py >/dev/null 2>&1; echo "exit=$?"
+echo "== demo WITH the change (cy):"; tools/seed_run_demo.sh $WT $DST/demo.py cy >/dev/null 2>&1; echo "exit=$?"
 } > $DST/confirm.txt 2>&1
 git -C /repo worktree remove --force $WT
 cat $DST/confirm.txt
